@@ -1,8 +1,8 @@
 #!/bin/bash
 # Confirms every seeded change in /verif/seeded against /repo HEAD in a scratch worktree:
 #   patch applies, builds, the repository's suite still passes with it (known-flaky tests ignored),
-#   the demonstration fails with it and passes without it; then runs the property's quick check on /repo with the
-#   patch applied (restored afterwards) and records everything in the seed's meta.json under "audit".
+#   the demonstration fails with it and passes without it; then runs the property's quick check against that worktree
+#   (VERIF_REPO) with the patch applied and records everything in the seed's meta.json under "audit".
 # usage: tools/audit_seeds.sh [seed-dir-names...]   (default: all)
 set -u
 export GOFLAGS=-mod=mod GOPROXY=off GOSUMDB=off
@@ -31,16 +31,14 @@ for s in $seeds; do
     fi
   fi
   git checkout -q -- .; git clean -fdq
-  # the check on /repo itself
+  # the property's quick check against the scratch worktree with the change applied (VERIF_REPO), evidence and replays kept out of /verif
   verdict="not run"; rule=""
   if $applies && $builds; then
-    cd /repo
-    if [ -z "$(git status --porcelain)" ] && git apply $d/patch.diff; then
-      out=$(cd /verif && ./check $prop quick 2>&1); rc=$?
-      git checkout -q -- .; git clean -fdq
-      rule=$(echo "$out" | grep -m1 -oE "^violation: rule=[A-Z0-9.]+ sig='[^']*'|^violation: rule=[A-Z0-9.]+ sig=\"[^\"]*\"" | sed 's/^violation: //')
-      case $rc in 0) verdict="MISSED";; 1) verdict="DETECTED";; *) verdict="MACHINERY($rc)";; esac
-    fi
+    cd $wt; git apply $d/patch.diff
+    out=$(cd /verif && VERIF_REPO=$wt VERIF_EVIDENCE_DIR=/var/tmp/seed-evidence VERIF_REPLAY_DIR=/var/tmp/seed-replays ./check $prop quick 2>&1); rc=$?
+    git checkout -q -- .; git clean -fdq
+    rule=$(echo "$out" | grep -m1 -oE "^violation: rule=[A-Z0-9.]+ sig='[^']*'|^violation: rule=[A-Z0-9.]+ sig=\"[^\"]*\"" | sed 's/^violation: //')
+    case $rc in 0) verdict="MISSED";; 1) verdict="DETECTED";; *) verdict="MACHINERY($rc)";; esac
   fi
   python3 - "$d" "$pkg" "$applies" "$builds" "$suite" "$demo_with" "$demo_without" "$verdict" "$rule" <<'PY'
 import json,sys,subprocess
